@@ -70,12 +70,17 @@ def stalled_oracle(case, obs):
     return 'ok'
 
 
-def stalled(run, n):
+HEAVY = ['100 DiscardOldest 32 40', '100 DiscardOldest 64 200', '101 DiscardOldest 8 40', '100 DiscardOldest 16 3000', '100 DiscardOldest 4 5000', '100 Discard 64 100', '100 DiscardOldest 16 60000']
+
+
+def stalled(run, n, name='c06/stalled-appender'):
     import shutil
     rng = run.rng
     tmp = common.scratch_dir('c06w')
     try:
-        cases = []
+        # heavy contention first: many producers racing for the slot an eviction has just freed. The last case is long on
+        # purpose: for the first few hundred microseconds the producers barely overlap (the other Ps are still waking up)
+        cases = list(HEAVY)
         for _ in range(n):
             cases.append('%d %s %d %d' % (rng.choice([100, 101, 128]), rng.choice(['Discard', 'DiscardOldest', 'DiscardOldest']), rng.choice([1, 2, 4, 8, 32]), rng.choice([1, 5, 40])))
         common.write_lines(tmp + '/c', cases)
@@ -88,12 +93,12 @@ def stalled(run, n):
         bad = [(c, o, stalled_oracle(c, o)) for c, o in zip(cases, io)]
         bad = [b for b in bad if b[2] != 'ok']
         for c, o, v in bad[:3]:
-            run.add_violation('oracle:c06/stalled-appender', v, ['family c06w', 'case ' + c, 'impl ' + o[:2000], 'verdict ' + v])
+            run.add_violation('oracle:' + name, v, ['family c06w', 'case ' + c, 'impl ' + o[:2000], 'verdict ' + v])
         if not bad:
             run.discharged += 1
-        run.stream('c06/stalled-appender', len(cases), len(cases), False, 'worker parked inside the appender, buffer full, 1-32 producers submitting concurrently under Discard/DiscardOldest: '
+        run.stream(name, len(cases), len(cases), False, 'worker parked inside the appender, buffer full, 1-32 producers submitting concurrently under Discard/DiscardOldest: '
                    'every call must return (c06_no_wait_on_worker), exactly one discard per submission, per-producer order of the survivors')
-        run.coverage['samples'].append({'stream': 'c06/stalled-appender', 'case': cases[0], 'observation': io[0][:200]})
+        run.coverage['samples'].append({'stream': name, 'case': cases[0], 'observation': io[0][:200]})
     finally:
         shutil.rmtree(tmp, ignore_errors=True)
 
